@@ -29,8 +29,9 @@ class StubPool(object):
     def __init__(self, processes=None, initializer=None, initargs=(), maxtasksperchild=None, **kw):
         if processes is None or processes < 1:
             raise ValueError("Number of processes must be at least 1")
-        _COUNT[0] += 1
-        self.pid = _COUNT[0]
+        E = vsym.cur()
+        E._pool_count = getattr(E, "_pool_count", 0) + 1      # per path: names must be the same on a re-execution
+        self.pid = E._pool_count
         self.W = processes
         self.initializer = initializer
         self.initargs = initargs
